@@ -1381,3 +1381,79 @@ where
     for<'id> F::Manager<'id>: Manager,
 {
 }
+
+
+/// C02: `eval` with many variables (the assignment is packed into machine words; block boundaries at
+/// 8, 16, 32, 64 levels): f = x_i <op> x_j for pairs around the boundaries and far apart, under the
+/// identity order and a rotation; self-contained events (no shadow state: `evalw`)
+pub fn widevars<F: BoolExt>(args: &Args) {
+    let dir = args.get("out", "/verif/out/tmp");
+    let seed = args.num("seed", 1);
+    let thorough = args.get("tier", "quick") == "thorough";
+    let mut out = TraceOut::new(&dir, &format!("wide-{}", F::KIND), 4000);
+    let mut rng = Rng::new(seed ^ 0x71de);
+    let mut cases = 0u64;
+    let sizes: Vec<u32> = if thorough { vec![9, 12, 17, 20, 33, 40, 65, 70] } else { vec![9, 17, 33, 65] };
+    for (si, &n) in sizes.iter().enumerate() {
+        for rotate in [false, true] {
+            out.begin_history();
+            let mref = F::new_manager(1 << 16, 256, 1);
+            out.emit(json!({"ev":"reset","kind":F::KIND,"cap":1 << 16,"cache":256,"thr":1,"tag":"wide"}));
+            let ok = catch(|| {
+                mref.with_manager_exclusive(|m| {
+                    m.add_vars(n);
+                    if rotate {
+                        let ord: Vec<u32> = (0..n).map(|l| (l + 3) % n).collect();
+                        F::set_var_order(m, &ord);
+                    }
+                })
+            });
+            if ok.is_err() {
+                out.emit(json!({"ev":"abort","what":"wide setup","signal":0}));
+                continue;
+            }
+            let l2v: Vec<u32> = mref.with_manager_shared(|m| (0..n).map(|l| m.level_to_var(l)).collect());
+            let mut pairs: Vec<(u32, u32)> = vec![(0, n - 1), (n - 1, 0), (0, 1)];
+            for b in [8u32, 16, 32, 64] {
+                if b < n {
+                    pairs.push((l2v[(b - 1) as usize], l2v[b as usize]));
+                    pairs.push((l2v[0], l2v[b as usize]));
+                    pairs.push((l2v[b as usize], l2v[(b - 8) as usize]));
+                }
+            }
+            for _ in 0..(if thorough { 12 } else { 5 }) {
+                pairs.push((rng.below(n as usize) as u32, rng.below(n as usize) as u32));
+            }
+            for (pi, &(i, j)) in pairs.iter().enumerate() {
+                let op = BIN_OPS[(pi + si) % 8];
+                let f = catch(|| {
+                    mref.with_manager_shared(|m| {
+                        let a = F::var(m, i)?;
+                        let b = F::var(m, j)?;
+                        bin_call(op, &a, &b)
+                    })
+                });
+                let Ok(Ok(f)) = f else {
+                    out.emit(json!({"ev":"evalw","n":n,"op":op,"i":i,"j":j,"res":{"panic":"construction failed"}}));
+                    continue;
+                };
+                for k in 0..(if thorough { 10 } else { 6 }) {
+                    let asg: Vec<u8> = match k {
+                        0 => vec![0; n as usize],
+                        1 => vec![1; n as usize],
+                        _ => (0..n).map(|_| rng.below(2) as u8).collect(),
+                    };
+                    cases += 1;
+                    let r = catch(|| f.eval((0..n).map(|v| (v, asg[v as usize] == 1))));
+                    match r {
+                        Ok(b) => out.emit(json!({"ev":"evalw","n":n,"op":op,"i":i,"j":j,"ai":asg[i as usize],"aj":asg[j as usize],
+                            "ones":asg.iter().filter(|&&x| x == 1).count(),"res":b,"rot":rotate})),
+                        Err(p) => out.emit(json!({"ev":"evalw","n":n,"op":op,"i":i,"j":j,"res":{"panic":p}})),
+                    }
+                }
+            }
+        }
+    }
+    out.finish();
+    write_summary(&dir, &format!("wide-{}", F::KIND), &out, json!({"rows":cases,"nontrivial":cases}));
+}
